@@ -137,3 +137,16 @@ class Talk:
         print(f'PRINT {self.x} two')
         labtech.logger.info(f'LOGMSG {self.x} b')
         return self.x
+
+
+@labtech.task(cache=None)
+class BadFilter:
+    x: int
+
+    def filter_context(self, context):
+        if self.x == 1:
+            raise ValueError('bad filter')
+        return context
+
+    def run(self):
+        return self.x
